@@ -1278,7 +1278,242 @@ Section Machine.
                 /\ (st = keep_root s oid ob0 root' nx' \/ st = save_root s oid ob0 root' nx')).
     { intros st Hst. right. exists ob, (replace_node hid n2 root1), nx2. auto. }
     destruct (nop_is_read o); [apply Keep2; left; reflexivity|].
-    destruct r; [apply Keep2; right; reflexivity|].
-    destruct sk; apply Keep2; [left|right]; reflexivity.
+    apply Keep2; right; reflexivity.
+  Qed.
+
+  Lemma mop_ok s oid hid o :
+    good_state s -> (forall v, In v (nop_stored o) -> wf_val v = true) ->
+    good_state (fst (step T s (MOp oid hid o))).
+  Proof.
+    intros GS Hwf. destruct (mop_cases s oid hid o GS Hwf) as [E|[ob [root' [nx' [Ho [S [E|E]]]]]]];
+      rewrite E.
+    - exact GS.
+    - apply keep_root_pres; assumption.
+    - apply save_root_pres; assumption.
+  Qed.
+
+  Lemma mtouch_ok s oid mut : good_state s -> good_state (fst (step T s (MTouch oid mut))).
+  Proof.
+    intros GS. cbn [step]. destruct (nlookup oid (m_objs s)) as [ob|] eqn:Ho; [|exact GS].
+    destruct (load_root T s ob) as [[root1 nx1] eo] eqn:El.
+    pose proof (load_ok s oid ob false root1 nx1 eo GS Ho El) as S1.
+    destruct eo as [e|]; [apply keep_root_pres; assumption|].
+    destruct mut; [apply save_root_pres|apply keep_root_pres]; assumption.
+  Qed.
+
+  Lemma mext_ok s rid content :
+    good_state s -> op_admissible T s (MExt rid content) ->
+    good_state (fst (step T s (MExt rid content))).
+  Proof.
+    intros [I [RV [SF RN]]] Adm. cbn [step fst]. split; [|split; [|split]].
+    - exact I.
+    - intros oid o c H1 H2. cbn [m_objs m_res] in *. destruct content as [v|].
+      + rewrite nlookup_nset in H2. destruct (Nat.eqb (o_rid o) rid) eqn:E.
+        * apply Nat.eqb_eq in E. inversion H2; subst c. apply (Adm v eq_refl oid o H1 E).
+        * eapply RV; eauto.
+      + rewrite nlookup_nremove in H2 by exact RN. destruct (Nat.eqb (o_rid o) rid); [discriminate|].
+        eapply RV; eauto.
+    - exact SF.
+    - unfold res_nodup. cbn [m_res]. destruct content; [apply nset_nodup|apply nremove_nodup]; exact RN.
+  Qed.
+
+  Lemma new_obj_pres s oid c rid data root nx' :
+    good_state s -> op_admissible T s (MNew oid c rid data) ->
+    obj_inv T nx' {| o_cls := c; o_rid := rid; o_root := root |} -> m_next s <= nx' ->
+    node_kind root = c_kind (get_cls T c) ->
+    good_state {| m_res := m_res s; m_writes := m_writes s;
+                  m_objs := nset oid {| o_cls := c; o_rid := rid; o_root := root |} (m_objs s);
+                  m_next := nx' |}.
+  Proof.
+    intros [I [RV [SF RN]]] [A1 [A2 [A3 [A4 A5]]]] OI Hle Hk. split; [|split; [|split]].
+    - intros oid' o' H. cbn [m_objs m_next] in *. rewrite nlookup_nset in H.
+      destruct (Nat.eqb oid' oid).
+      + inversion H; subst o'. exact OI.
+      + eapply obj_inv_mono; [apply (I oid' o' H)|exact Hle].
+    - intros oid' o' cnt H1 H2. cbn [m_objs m_res] in *. rewrite nlookup_nset in H1.
+      destruct (Nat.eqb oid' oid).
+      + inversion H1; subst o'. cbn [o_rid] in H2. destruct (A4 cnt H2) as [B1 [B2 B3]].
+        unfold content_ok. cbn [o_cls o_root]. rewrite Hk. auto.
+      + eapply RV; eauto.
+    - intros oid1 o1 oid2 o2 H1 H2 Hr. cbn [m_objs] in *. rewrite nlookup_nset in H1, H2.
+      destruct (Nat.eqb oid1 oid), (Nat.eqb oid2 oid).
+      + inversion H1; inversion H2; subst. auto.
+      + inversion H1; subst o1. cbn [o_rid o_cls o_root] in *.
+        destruct (A3 oid2 o2 H2 (eq_sym Hr)) as [B1 B2]. rewrite Hk. auto.
+      + inversion H2; subst o2. cbn [o_rid o_cls o_root] in *.
+        destruct (A3 oid1 o1 H1 Hr) as [B1 B2]. rewrite Hk. auto.
+      + eapply SF; eauto.
+    - exact RN.
+  Qed.
+
+  Lemma mnew_ok s oid c rid data :
+    good_state s -> op_admissible T s (MNew oid c rid data) ->
+    good_state (fst (step T s (MNew oid c rid data))).
+  Proof.
+    intros GS Adm. pose proof Adm as [Hc [_ [_ [_ Hwf]]]].
+    destruct (cls_facts T c HT Hc) as [Hb [HB [HU Hkind]]].
+    cbn [step]. destruct data as [v|].
+    - destruct (validate (validators_of T c) v) eqn:Ev; [exact GS|].
+      apply (validate_ok T _ _ HU c v Hb) in Ev. specialize (Hwf v eq_refl).
+      destruct (c_kind (get_cls T c)) eqn:Ek; destruct v as [sc|l|d]; try exact GS.
+      + (* list *)
+        destruct (map_st (from_base T c) l (S (m_next s))) as [l' nx] eqn:E. cbn [fst].
+        apply val_ok_VL in Ev. apply wf_val_VL in Hwf.
+        destruct (fb_many T _ _ HB c l (S (m_next s)) l' nx Hb Ev Hwf E) as [Gl [F1 [F2 F3]]].
+        apply (new_obj_pres s oid c rid (Some (VL l))); [exact GS|exact Adm| |lia|simpl; congruence].
+        apply obj_inv_iff. cbn [o_cls o_root]. split; [exact Hc|]. split; [reflexivity|].
+        split; [reflexivity|]. split.
+        * apply gnode_NL. split; [|exact Gl]. split; [exact Hb|]. rewrite Ek. reflexivity.
+        * split.
+          -- simpl. constructor; [|exact F2]. intros Hin. destruct (F3 _ Hin) as [[]|Hr]. lia.
+          -- intros i [<-|Hi]; [lia|]. destruct (F3 _ Hi) as [[]|Hr]. lia.
+      + (* dict *)
+        destruct (map_st _ d (S (m_next s))) as [d' nx] eqn:E. cbn [fst].
+        pose proof (wf_val_VD _ Hwf) as Hwd.
+        destruct (fb_entries T _ _ HB c d (S (m_next s)) d' nx Hb Ev Hwd E) as [Gd [Hkeys [F1 [F2 F3]]]].
+        apply (new_obj_pres s oid c rid (Some (VD d))); [exact GS|exact Adm| |lia|simpl; congruence].
+        apply obj_inv_iff. cbn [o_cls o_root]. split; [exact Hc|]. split; [reflexivity|].
+        split; [reflexivity|]. split.
+        * apply gnode_ND. split; [split; [exact Hb|rewrite Ek; reflexivity]|]. split; [|exact Gd].
+          apply NoDup_keys_unique. rewrite Hkeys. apply keys_unique_NoDup.
+          simpl in Hwf. apply andb_true_iff in Hwf. tauto.
+        * split.
+          -- simpl. constructor; [|exact F2]. intros Hin. destruct (F3 _ Hin) as [[]|Hr]. lia.
+          -- intros i [<-|Hi]; [lia|]. destruct (F3 _ Hi) as [[]|Hr]. lia.
+    - (* empty collection *) cbn [fst].
+      apply (new_obj_pres s oid c rid None); [exact GS|exact Adm| |lia|].
+      + apply obj_inv_iff. cbn [o_cls o_root]. unfold empty_root.
+        split; [exact Hc|]. destruct Hkind as [Ek|Ek]; rewrite Ek.
+        * split; [reflexivity|]. split; [reflexivity|]. split.
+          -- apply gnode_NL. split; [|constructor]. split; [exact Hb|]. rewrite Ek. reflexivity.
+          -- split; [simpl; constructor; [intros []|constructor]|]. intros i [<-|[]]. lia.
+        * split; [reflexivity|]. split; [reflexivity|]. split.
+          -- apply gnode_ND. split; [split; [exact Hb|rewrite Ek; reflexivity]|].
+             split; [reflexivity|constructor].
+          -- split; [simpl; constructor; [intros []|constructor]|]. intros i [<-|[]]. lia.
+      + unfold empty_root. destruct Hkind as [Ek|Ek]; rewrite Ek; reflexivity.
   Qed.
 End Machine.
+
+(* ------------------------------------------------------------------ *)
+(* counterexamples to the statements as originally given               *)
+(* ------------------------------------------------------------------ *)
+
+Module Counterexamples.
+  Definition T2 : class_table := [
+    {| c_name := []; c_kind := KDict; c_backend := 0; c_validators := [VRequireStringKey];
+       c_attr := false; c_buf := BufNone; c_threading := false; c_protected := [] |};
+    {| c_name := []; c_kind := KList; c_backend := 0; c_validators := [VRequireStringKey];
+       c_attr := false; c_buf := BufNone; c_threading := false; c_protected := [] |}].
+
+  Lemma T2_ok : table_ok T2 = true.
+  Proof. vm_compute. reflexivity. Qed.
+
+  (* (1) a mutator argument whose dict keys are not unique (impossible for a Python dict, but
+         expressible in [val]) is accepted by the validators and breaks [oi_keys] *)
+  Definition s1 : mstate := fst (step T2 m_init (MNew 0 1 0 None)).
+  Definition dupv : val := VD [(KStr [], VS SNull); (KStr [], VS SNull)].
+  Definition s2 : mstate := fst (step T2 s1 (MOp 0 0 (OL (LAppend dupv)))).
+
+  Lemma cex_dup_keys :
+    op_admissible T2 s1 (MOp 0 0 (OL (LAppend dupv)))
+    /\ exists o, nlookup 0 (m_objs s2) = Some o /\ node_keys_unique (o_root o) = false.
+  Proof. split; [exact I|]. eexists. split; [vm_compute; reflexivity|vm_compute; reflexivity]. Qed.
+
+  Lemma cex_dup_keys_not_inv : ~ Inv T2 s2.
+  Proof.
+    intros H. destruct cex_dup_keys as [_ [o [Ho Hk]]].
+    pose proof (oi_keys _ _ _ (H 0 o Ho)) as K. congruence.
+  Qed.
+
+  (* (2) a resource map with a duplicated resource id: MExt rid None removes only the first
+         binding, the stale second one becomes visible *)
+  Definition s3 : mstate :=
+    {| m_res := [(0, VD []); (0, VS SNull)]; m_writes := [];
+       m_objs := [(0, {| o_cls := 0; o_rid := 0; o_root := ND 0 0 [] |})]; m_next := 1 |}.
+
+  Lemma cex_res_dup_before : res_valid T2 s3.
+  Proof.
+    intros oid o c H1 H2. destruct oid as [|oid]; simpl in H1; [|discriminate].
+    inversion H1; subst o. simpl in H2. inversion H2; subst c. vm_compute. auto.
+  Qed.
+
+  Lemma cex_res_dup_after : ~ res_valid T2 (fst (step T2 s3 (MExt 0 None))).
+  Proof.
+    intros H. specialize (H 0 _ (VS SNull) eq_refl eq_refl). destruct H as [_ [_ H]]. discriminate.
+  Qed.
+End Counterexamples.
+
+(* ------------------------------------------------------------------ *)
+(* the invariant                                                       *)
+(* ------------------------------------------------------------------ *)
+
+(* C11 / C18 as an invariant: whatever operation is issued, with ARBITRARY (possibly forbidden) argument values,
+   through any handle, every object's tree stays a clean, well-formed member of its family, and what
+   is in the backend stays valid *)
+(* CHANGED: two extra hypotheses, and [res_nodup] as a fourth conjunct of the conclusion.
+   (a) [op_args_wf op]: the values a mutator stores have unique dict keys ([wf_val]) -- a
+       representation assumption (Python dicts cannot have duplicate keys), NOT a restriction on
+       forbidden data (non-string keys, non-JSON leaves, dotted keys stay allowed).  Without it the
+       statement is false: see [Counterexamples.cex_dup_keys_not_inv].
+   (b) [res_nodup s]: resource ids are unique in [m_res] (true of [m_init], preserved by every step).
+       Without it [MExt rid None], which removes only the first binding, can expose a stale second
+       binding: see [Counterexamples.cex_res_dup_after]. *)
+Theorem step_preserves_inv T s op :
+  table_ok T = true -> Inv T s -> res_valid T s -> same_family T s -> res_nodup s ->
+  op_admissible T s op -> op_args_wf op ->
+  Inv T (fst (step T s op)) /\ res_valid T (fst (step T s op)) /\ same_family T (fst (step T s op))
+  /\ res_nodup (fst (step T s op)).
+Proof.
+  intros HT I RV SF RN Adm Hwf.
+  assert (GS : good_state T s) by exact (conj I (conj RV (conj SF RN))).
+  destruct op as [oid c rid data|rid content|oid hid o|oid mut].
+  - apply mnew_ok; assumption.
+  - apply mext_ok; assumption.
+  - apply mop_ok; assumption.
+  - apply mtouch_ok; assumption.
+Qed.
+
+Lemma run_snoc T pre op s :
+  fst (run T (pre ++ [op]) s) = fst (step T (fst (run T pre s)) op).
+Proof.
+  unfold run. rewrite fold_left_app. simpl.
+  destruct (step T (fst (fold_left _ pre (s, []))) op). reflexivity.
+Qed.
+
+(* CHANGED: same two additions as in [step_preserves_inv]. *)
+Theorem run_preserves_inv T ops : forall s,
+  table_ok T = true -> Inv T s -> res_valid T s -> same_family T s -> res_nodup s ->
+  (forall pre op post, ops = pre ++ op :: post ->
+     op_admissible T (fst (run T pre s)) op /\ op_args_wf op) ->
+  Inv T (fst (run T ops s)) /\ res_valid T (fst (run T ops s)) /\ same_family T (fst (run T ops s))
+  /\ res_nodup (fst (run T ops s)).
+Proof.
+  induction ops as [|op ops IH] using rev_ind; intros s HT I RV SF RN Adm.
+  - simpl. auto.
+  - rewrite run_snoc.
+    destruct (IH s HT I RV SF RN) as [I' [RV' [SF' RN']]].
+    { intros pre op0 post E. apply (Adm pre op0 (post ++ [op])). rewrite E, <- app_assoc. reflexivity. }
+    destruct (Adm ops op [] eq_refl) as [A1 A2].
+    apply step_preserves_inv; assumption.
+Qed.
+
+Lemma inv_init T : Inv T m_init /\ res_valid T m_init /\ same_family T m_init.
+Proof.
+  split; [|split].
+  - intros oid o H. discriminate.
+  - intros oid o c H. discriminate.
+  - intros oid1 o1 oid2 o2 H. discriminate.
+Qed.
+
+Lemma res_nodup_init : res_nodup m_init.
+Proof. constructor. Qed.
+
+Print Assumptions table_ok_cls.
+Print Assumptions lang3_str_keys.
+Print Assumptions step_preserves_inv.
+Print Assumptions run_preserves_inv.
+Print Assumptions inv_init.
+Print Assumptions res_nodup_init.
+Print Assumptions Counterexamples.cex_dup_keys_not_inv.
+Print Assumptions Counterexamples.cex_res_dup_after.
